@@ -150,15 +150,17 @@ def sumGrants : List (Int × Int) → Int
   | [] => 0
   | (_, g) :: r => g + sumGrants r
 
-/-- the events from the first one on respect `burst + qps·(t − t_first)` at each later event -/
-def prefixesOk (qps burst : Int) (t0 : Int) (acc : Int) : List (Int × Int) → Bool
+/-- the events from the first one on respect `burst + qps·(t − t_first) + slack` at each later event -/
+def prefixesOk (qps burst : Int) (slack : Rat) (t0 : Int) (acc : Int) : List (Int × Int) → Bool
   | [] => true
   | (t, g) :: r =>
-    decide (((acc + g : Int) : Rat) ≤ (burst : Rat) + tokensFromNs qps (t - t0)) && prefixesOk qps burst t0 (acc + g) r
+    decide (((acc + g : Int) : Rat) ≤ (burst : Rat) + tokensFromNs qps (t - t0) + slack) &&
+    prefixesOk qps burst slack t0 (acc + g) r
 
-/-- every window of consecutive events `i..j` has `Σ grants ≤ burst + qps·(t_j − t_i)` -/
-def windowsOk (qps burst : Int) : List (Int × Int) → Bool
+/-- every window of consecutive events `i..j` has `Σ grants ≤ burst + qps·(t_j − t_i) + slack`
+    (`slack = 0` is the property; the harness allows 1/1000 token for the float64 arithmetic of x/time/rate) -/
+def windowsOk (qps burst : Int) (slack : Rat) : List (Int × Int) → Bool
   | [] => true
-  | (t, g) :: r => prefixesOk qps burst t 0 ((t, g) :: r) && windowsOk qps burst r
+  | (t, g) :: r => prefixesOk qps burst slack t 0 ((t, g) :: r) && windowsOk qps burst slack r
 
 end KG.Spec.GlobalCount
